@@ -411,8 +411,10 @@ def finish(prop, tier, level, out, rule, t0, assumptions, extra_cov=None):
         "property_id": prop, "tier": tier, "seed": seed(), "level": level, "coverage": cov,
         "assumptions": assumptions, "wall_s": round(time.time() - t0, 2), "violations": len(out.violations),
     }
-    os.makedirs(os.path.join(VERIF, "evidence"), exist_ok=True)
-    p = os.path.join(VERIF, "evidence", prop + ".json")
+    # mutant / seeded-change runs (tools/run_mutant.sh) keep their evidence out of the committed evidence directory
+    evdir = os.environ.get("VERIF_EVIDENCE_DIR") or os.path.join(VERIF, "evidence")
+    os.makedirs(evdir, exist_ok=True)
+    p = os.path.join(evdir, prop + ".json")
     with open(p + ".tmp", "w") as f:
         json.dump(ev, f, indent=1, sort_keys=True, default=str)
     os.replace(p + ".tmp", p)
